@@ -534,6 +534,17 @@ def job_stream(pid, ctx, n_random=None):
             s.oracle_failures.append((i, c, ta, f"[{prop}] {what}"))
         # C06 "force-kills it when the grace period elapses": the model kills exactly at expiry (theorems timer_fires / expiry_kills,
         # c07_timer_fresh), so a kill of the same child later than in EVERY admissible model trace came after the grace period had elapsed
+        # C09 "the moments at which tickets resolve are those of the documented semantics": the model's raise moments are proved to be
+        # the documented machine's (handle_refines / waitBranch_refines, third conjunct), so a ticket that resolves at a moment no
+        # admissible model trace has (or never, although every model trace resolves it) resolves at an undocumented moment
+        def tks(t): return {e.split(":")[2]: int(e.split(":")[0]) for e in t.split("|") if e.split(":")[1:2] == ["tk"]}
+        if job_norm(ta) not in alts:
+            it = tks(ta); ats = [tks(a) for a in alts]
+            for u in sorted(set(it) | set().union(*[set(a) for a in ats]) if ats else set(it)):
+                want = {a.get(u) for a in ats}
+                if it.get(u) not in want:
+                    fmt = lambda x: "never" if x is None else f"at {x} ms"
+                    s.oracle_failures.append((i, c, ta, f"[C09] ticket {u} resolves {fmt(it.get(u))}; the documented semantics resolve it {' or '.join(sorted(fmt(w) for w in want))}"))
         def kills(t): return {e.split(":")[2]: int(e.split(":")[0]) for e in t.split("|") if ":kill:" in e}
         ik = kills(ta)
         if ik and job_norm(ta) not in alts:
@@ -679,6 +690,16 @@ def fs_oracle(script, trace, conf):
         faulted = {o.split(":")[1] for o in ops if o.split(":")[0] in ("failw", "failu")}
         clean = lambda l: [x for x in l if x[:-1] not in faulted]
         if clean(want) != clean(got): return f"paths without any injected fault: configured {clean(want) or 'nothing'} but registered {clean(got) or 'nothing'} once changes stopped (faults were injected on {sorted(faulted)} only)"
+        # (3) a failed registration is attempted again: a path that stopped failing (`okw:x`) before a later change / poke, never
+        # fails again and is configured at the end must be registered at the end (names with unwatch faults are left to the model)
+        ufaulted = {o.split(":")[1] for o in ops if o.split(":")[0] == "failu"}
+        for x in sorted(faulted - ufaulted):
+            idx = [i for i, o in enumerate(ops) if o.split(":")[0] in ("failw", "okw") and o.split(":")[1] == x]
+            if ops[idx[-1]].split(":")[0] != "okw": continue
+            if not any(o.split(":")[0] in ("set", "poke") for o in ops[idx[-1] + 1:]): continue
+            wx_ = [w for w in want if w[:-1] == x]
+            if wx_ and wx_[0] not in got:
+                return f"path {wx_[0]} failed to register earlier, stopped failing before the last change, is configured — and is still not registered: the failed registration was never attempted again"
         failing = set()
         segs = trace.split(";"); si = 0
         for o in ops:
@@ -1183,7 +1204,9 @@ PLANS["C08"] = dict(
 # ------------------------------------------------------------------------------------------------
 # C05 on-busy policy (CLI action handler)
 
-C05_FIXED = """mx1 --on-busy-update=restart,--stop-timeout=50ms I,I a:10;mix:10;a:100;mix:1;a:300
+C05_FIXED = """sgo1 --on-busy-update=restart,--signal=SIGUSR1 I init;a:30;chg;a:100
+sgo2 --on-busy-update=queue,--signal=SIGHUP E100,E100 init;a:30;chg;a:300
+mx1 --on-busy-update=restart,--stop-timeout=50ms I,I a:10;mix:10;a:100;mix:1;a:300
 mx2 --on-busy-update=queue E50,E50 init;a:10;mix:12;a:200
 mx3 --on-busy-update=do-nothing E20 a:5;mix:10;a:100;mix:1;a:100
 dn --on-busy-update=do-nothing E100 init;a:30;chg;a:30;chg;a:200;chg;a:300
@@ -1220,6 +1243,8 @@ def c05_cases(seed, n):
         if r.random() < 0.5: flags.append("--stop-timeout=" + r.choice(["0ms", "20ms", "50ms", "120ms"]))
         if r.random() < 0.2: flags.append("--delay-run=" + r.choice(["20ms", "50ms", "100ms"]))
         if mode == "signal" and r.random() < 0.3 and not any(f.startswith("--signal") for f in flags): flags.append("--signal=" + r.choice(["SIGUSR1", "SIGHUP", "SIGINT"]))
+        # --signal next to an explicit OTHER mode: still signal mode
+        if mode in ("restart", "queue", "do-nothing") and flags and flags[0].startswith("--on-busy-update=") and r.random() < 0.08: flags.append("--signal=" + r.choice(["SIGUSR1", "SIGHUP"]))
         behs = []
         for _ in range(r.randint(1, 4)):
             k = r.random()
@@ -1239,12 +1264,12 @@ def c05_cases(seed, n):
 def c05_oracle(case, trace):
     cid, flags, behs, ops = case.split(" ")
     fl = flags.split(",")
+    # the documented normalisation: --signal implies signal mode (also next to an explicit other mode), else -r, else the given mode
     mode = "do-nothing"
-    for f in fl:
-        if f.startswith("--signal="): mode = "signal"
     for f in fl:
         if f in ("-r", "--restart"): mode = "restart"
         if f.startswith("--on-busy-update="): mode = f.split("=")[1]
+    if any(f.startswith("--signal=") for f in fl): mode = "signal"
     ev = [e.split(":") for e in trace.split("|") if e]
     out = []
     live = set()
@@ -1541,7 +1566,7 @@ def cli_e2e(ctx, pid):
 PLANS["C05"] = dict(
     translate=True,
     modules=["Wx.Cli.Action", "Wx.Queue.Props", "Wx.Job.C04Sim", "Wx.Job.C06", "Wx.Cli.Compose", "Wx.Cli.ComposeThm", "Wx.Job.Reach", "Wx.Job.ShapesThm"],
-    theorems=["Jm.on_busy_modes_are_the_models", "Jm.cli_defaults_are_the_models", "Ca.cli_runs_never_overlap", "Ca.cli_never_kills_early", "Ca.cli_other_modes_never_kill", "Ca.runEvs_good", "Ca.maySend_gentle", "Jm.SimInv2.reach", "Ca.react_idle", "Ca.react_doNothing", "Ca.react_signal", "Ca.react_restart", "Ca.react_queue_first", "Ca.react_queue_again", "Ca.react_no_forceful",
+    theorems=["Ca.signal_flag_implies_signal_mode", "Ca.restart_flag_means_restart", "Ca.default_mode_is_do_nothing", "Jm.on_busy_modes_are_the_models", "Jm.cli_defaults_are_the_models", "Ca.cli_runs_never_overlap", "Ca.cli_never_kills_early", "Ca.cli_other_modes_never_kill", "Ca.runEvs_good", "Ca.maySend_gentle", "Jm.SimInv2.reach", "Ca.react_idle", "Ca.react_doNothing", "Ca.react_signal", "Ca.react_restart", "Ca.react_queue_first", "Ca.react_queue_again", "Ca.react_no_forceful",
               "Qm.perRun_fresh", "Qm.f10_today", "Qm.reorder_insufficient", "Jm.c04", "Jm.graceful_restart_step", "Jm.graceful_stop_step"],
     bins=[("cli", ["wxcliaction", "wxcli-main"])],
     streams=lambda ctx: c05_streams(ctx) + [c05_e2e(ctx), cli_e2e(ctx, "C05")],
